@@ -281,23 +281,26 @@ def gen_spec(rng, env, allow_reverse=True, for_sort=True):
         return Spec("queryfacet:%s" % ("none" if other is None else "other"), desc,
                     lambda: sorting.QueryFacet(dict(qd), other=other), keyfn)
     if r < 0.94:
-        start, end, gap = rng.choice([(-3, 3, 2), (-3, 4, 3), (-2, 2, 1), (0, 3, 2)])
+        start, end, gap = rng.choice([(-3, 3, 2), (-3, 4, 3), (-2, 2, 1), (0, 3, 2), (-3, 4, [1, 2]), (-3, 3, [3, 1, 2])])
         hard = rng.random() < 0.3
 
         def keyfn(dn):
+            # documented: a sequence of gaps gives the sizes of the first buckets, the last size is used for all subsequent buckets
             v = env.doc(dn).get("n")
             if v is None:
                 return MISSING
-            c = start
+            gaps = list(gap) if isinstance(gap, list) else [gap]
+            c, i = start, 0
             while c < end:
-                e = c + gap
+                e = c + gaps[min(i, len(gaps) - 1)]
+                i += 1
                 if hard:
                     e = min(e, end)
                 if c <= v < e:
                     return (c, e)
                 c = e
             return MISSING
-        return Spec("rangefacet", "RangeFacet('n', %d, %d, %d, hardend=%r)" % (start, end, gap, hard),
+        return Spec("rangefacet", "RangeFacet('n', %d, %d, %r, hardend=%r)" % (start, end, gap, hard),
                     lambda: sorting.RangeFacet("n", start, end, gap, hardend=hard), keyfn)
     days = rng.choice([1, 2, 3])
     start, end = EPOCH, EPOCH + datetime.timedelta(days=rng.choice([4, 6, 7]))
@@ -484,6 +487,16 @@ def check_sorts(env, nviews):
             env.fail("sort", "order:scored:creverse", {"view": "search(q, limit=None, reverse=True)", "expected": env.ids(reversed(env.full)),
                                                       "observed": env.ids(got)})
         env.check_len("sort", "scored+reverse", r, len(env.matched), {"view": "reverse=True"})
+    # plain scored top-k: prefix of the exhaustive ranking (C05's subject; here for len() under a limit)
+    for k in (1, 3, 10):
+        ctx.count("c14.sort.evals")
+        extra = {"view": "search(q, limit=%d)" % k}
+        ok, r = env.guard("sort", extra, lambda: s.search(q, limit=k))
+        if ok:
+            got = [h.docnum for h in r]
+            if got != env.full[:k]:
+                env.fail("sort", "limit-prefix:scored", dict(extra, expected=env.ids(env.full[:k]), observed=env.ids(got)))
+            env.check_len("sort", "scored+limit", r, len(env.matched), extra)
     return shapes
 
 
